@@ -102,9 +102,15 @@ for _pid in ("C01", "C02"):
 PROPS["C12"]["theorem_modules"] = PROPS["C12"]["theorem_modules"] + ["DecProofs.Properties.C12GenNaN"]
 PROPS["C17"]["theorem_modules"] = PROPS["C17"]["theorem_modules"] + ["DecProofs.Properties.C17GenNext"]
 PROPS["C05"]["theorem_modules"] = PROPS["C05"]["theorem_modules"] + ["DecProofs.Properties.C05Format"]
+PROPS["C04"]["theorem_modules"] = PROPS["C04"]["theorem_modules"] + ["DecProofs.Properties.C04ScanNum"]
+PROPS["C08"]["theorem_modules"] = PROPS["C08"]["theorem_modules"] + ["DecProofs.Properties.C08GenRiBase", "DecProofs.Properties.C08GenRiDirected",
+    "DecProofs.Properties.C08GenRiNearest", "DecProofs.Properties.C08GenRiExact", "DecProofs.Properties.C08GenRiNearby", "DecProofs.Properties.C08GenRoundIntegral"]
+PROPS["C06"]["theorem_modules"] = PROPS["C06"]["theorem_modules"] + ["DecProofs.Properties.C06GenToInt64"]
+for _pid in ("C03", "C06", "C09", "C11", "C12", "C13", "C14", "C15", "C16", "C17", "C18", "C19", "C20"):
+    PROPS[_pid]["theorem_modules"] = PROPS[_pid]["theorem_modules"] + ["DecProofs.Properties.SourceLevel"]
 PROPS["C14"]["theorem_modules"] = PROPS["C14"]["theorem_modules"] + ["DecProofs.Properties.C14GenFrame"]
 for _pid in ("C01", "C02"):
-    PROPS[_pid]["theorem_modules"] = PROPS[_pid]["theorem_modules"] + ["DecProofs.Properties.C01GenMul"]
+    PROPS[_pid]["theorem_modules"] = PROPS[_pid]["theorem_modules"] + ["DecProofs.Properties.C01GenMul", "DecProofs.Properties.C02GenCorrection"]
 PROPS["C06"]["theorem_modules"] = PROPS["C06"]["theorem_modules"] + ["DecProofs.Properties.C06GenToUInt32", "DecProofs.Properties.C06GenToUInt64"]
 PROPS["C11"]["theorem_modules"] = PROPS["C11"]["theorem_modules"] + ["DecProofs.Properties.C11GenLogb", "DecProofs.Properties.C09GenQuantize"]
 PROPS["C06"]["theorem_modules"] = PROPS["C06"]["theorem_modules"] + ["DecProofs.Properties.C06GenToInt", "DecProofs.Properties.C06GenToIntRN"]
